@@ -27,7 +27,7 @@ class KInst:
                     D=None if self.X is not None else [list(map(float, r)) for r in self.D])
 
 
-def gen_kinst(rng, nmin=2, nmax=10, m=0, labelled=False, kinds=("feat", "lattice", "dup", "mat", "jitter", "outlier", "micro")):
+def gen_kinst(rng, nmin=2, nmax=10, m=0, labelled=False, kinds=("feat", "lattice", "dup", "mat", "jitter", "outlier", "micro", "mat")):
     kind = rng.choice(kinds)
     n = rng.randint(nmin, nmax)
     N = n + m
